@@ -78,6 +78,7 @@ def proof_gate(ctx):
     violation without failing input (the theorem that no longer checks is named)."""
     bad, nfiles = coqgate.hygiene()
     res = coqgate.check_property_file(ctx.pid)
+    ctx.placeholder = any(n.endswith("_placeholder") for n in res.get("names", []))
     ctx.cov["obligations"] = res["n_theorems"]
     ctx.cov["discharged"] = len([1 for _, ax in res["theorems"] if all(a in coqgate.ALLOWED_AXIOMS for a in ax)]) \
         if res["ok"] else 0
@@ -121,6 +122,11 @@ def canon(line):
 def finish(ctx, level="proof", rule="", samples=None, evaluations=0, distinct=0, extra=None, assumptions=None):
     os.makedirs(EVID, exist_ok=True)
     cov = dict(ctx.cov)
+    if getattr(ctx, "placeholder", False):
+        level = "other"
+        cov["explanation"] = ("theorems for this property are not in place yet at this commit: the check decides it by the "
+                              "correspondence between the executable Coq model and the implementation plus the statement's "
+                              "oracle evaluated on the implementation's output (differential testing, not a proof)")
     cov.update(dict(evaluations=evaluations, distinct_nontrivial=distinct, rule=rule,
                     samples=samples or [], trusted_base=TRUSTED_BASE))
     cov["traces_validated_against_impl"] = evaluations
